@@ -22,6 +22,19 @@ def run_real(src, fn, terms, run=None):
     return paths
 
 
+def fun_term(src, fn, b):
+    """the function as one term over its arguments: ite over the path conditions of the returning paths (a raising path is
+    reported by the never-raises clause; here it contributes an unconstrained value so that no lemma is proved through it)"""
+    q = run_real(src, fn, b)
+    rets = [p for p in q if p.kind == "return"]
+    if not rets: raise Unsupported("%s never returns" % fn)
+    fun_term.n = getattr(fun_term, "n", 0) + 1
+    t = z3.Real("%s.undef!%d" % (fn, fun_term.n)) if len(rets) < len(q) else to_z(rets[-1].value, "real")
+    for p in (rets if len(rets) < len(q) else rets[:-1])[::-1]:
+        t = z3.If(z3.And(*p.pc) if p.pc else z3.BoolVal(True), to_z(p.value, "real"), t)
+    return t
+
+
 def obligations(run, src):
     obls, canaries = [], []
     for fn in ("trace_res", "plane_res"):
@@ -48,15 +61,13 @@ def obligations(run, src):
             obls.append({"id": "%s/closed-form@p%d" % (base, pi), "hyps": p.pc + pre, "goal": r == spec(fn, a), "meta": {"replay": replay}})
             for s in p.side:
                 if not z3.is_true(z3.simplify(s["goal"])):
-                    obls.append({"id": "%s/safety:%s@L%s" % (base, s["what"], s["line"]), "hyps": s["hyps"] + pre, "goal": s["goal"], "kind": "safety", "meta": {"replay": replay}})
+                    obls.append({"id": "%s/safety:%s@[%s]" % (base, s["what"], s["at"]), "hyps": s["hyps"] + pre, "goal": s["goal"], "kind": "safety", "meta": {"replay": replay}})
             canaries.append({"id": base + "/canary", "hyps": p.pc + pre, "goal": r == spec(fn, a) + 1, "fn": base})
             # lemmas on the real result term (second symbolic run with transformed arguments)
             k = z3.Real("k")
             def again(**sub):
                 b = dict(a); b.update(sub)
-                q = run_real(src, fn, b)
-                assert len(q) == 1 and q[0].kind == "return"
-                return to_z(q[0].value, "real")
+                return fun_term(src, fn, b)
             L = "l_mm" if fn == "trace_res" else "l"
             lem = [("proportional-to-length", again(**{L: k * a[L]}) == k * r),
                    ("proportional-to-resistivity", again(rho=k * a["rho"]) == k * r),
@@ -72,10 +83,9 @@ def obligations(run, src):
     # trace_res(W, W, L) == plane_res(W, L)
     W, Lx, T, rho, temp, tcr = [z3.Real(n) for n in ("W", "L", "T", "rho", "temp", "tcr")]
     try:
-        t = run_real(src, "trace_res", dict(w1_mm=W, w2_mm=W, l_mm=Lx, t_mm=T, rho=rho, temp=temp, tcr=tcr))
-        pl = run_real(src, "plane_res", dict(w=W, l=Lx, t_mm=T, rho=rho, temp=temp, tcr=tcr))
-        obls.append({"id": "utils/lemma:trace_res(W,W,L)==plane_res(W,L)", "hyps": t[0].pc + pl[0].pc + [W > 0, Lx > 0, T > 0, rho > 0],
-                     "goal": to_z(t[0].value, "real") == to_z(pl[0].value, "real"), "meta": {}})
+        t = fun_term(src, "trace_res", dict(w1_mm=W, w2_mm=W, l_mm=Lx, t_mm=T, rho=rho, temp=temp, tcr=tcr))
+        pl = fun_term(src, "plane_res", dict(w=W, l=Lx, t_mm=T, rho=rho, temp=temp, tcr=tcr))
+        obls.append({"id": "utils/lemma:trace_res(W,W,L)==plane_res(W,L)", "hyps": [W > 0, Lx > 0, T > 0, rho > 0], "goal": t == pl, "meta": {}})
     except (Unsupported, FunctionMissing) as u:
         run.undecide("utils/lemma:trace_res(W,W,L)==plane_res(W,L)", str(u))
     return obls, canaries
